@@ -227,7 +227,7 @@ func c08Build() {
 	}
 	for _, s := range []string{"xs[::0]", "xs[1:2:0]", "a[::0]", "'abc'[::0]", "@[::0]", "[::0]", "xs[*][::0]", "missing[::0]",
 		"pad_left('a', `-1`)", "pad_left('a', `1.5`)", "pad_right('a', `2`, 'xy')", "pad_left('a', `2`, '')", "split('a', ',', `-1`)", "split('a', ',', `0.5`)", "replace('a', 'a', 'b', `-2`)", "replace('a', 'a', 'b', `1.5`)",
-		"find_first('abc', 'b', `0.5`)", "find_last('abc', 'b', `1`, `2.5`)", "from_items(`[[1, 2]]`)", "from_items(`[[\"a\"]]`)", "from_items(`[[\"a\", 1, 2]]`)", "from_items(`[[null, 1]]`)", "from_items(`[[]]`)",
+		"find_first('abc', 'b', `0.5`)", "find_last('abc', 'b', `1`, `2.5`)", "find_last('abc', 'b', `1.5`, `2.5`)", "find_first('abc', 'b', `1.5`, `2.5`)", "find_last('abc', 'b', `1e30`, `1e30`)", "find_first('abc', 'b', `1e30`, `1.5`)", "find_last('abc', 'b', `0.5`, `1e30`)", "find_last('abc', 'b', `1.5`, `1`)", "find_first('abc', 'b', `1.5`, 'x')", "find_last('abc', 'b', `1.5`, 'x')", "find_last('abc', 'b', 'x', `1.5`)", "from_items(`[[1, 2]]`)", "from_items(`[[\"a\"]]`)", "from_items(`[[\"a\", 1, 2]]`)", "from_items(`[[null, 1]]`)", "from_items(`[[]]`)",
 		"xs[*].pad_left('a', `-1`)", "[pad_left('a', n - `1`)]", "xs[?pad_left('a', `-1`)]"} {
 		add("invalid-value", s)
 	}
